@@ -739,3 +739,10 @@ add("C03", "before-operand-loses-leading-blank-lines", REQW,
 add("C06", "results-preselected-by-rule", "codemodder/codemods/base_visitor.py",
     [("                if result.match_location(pos_to_match, node)\n", "                if result.match_location(pos_to_match, node) and result.rule_id\n")],
     "fire", "R-CANDIDATES-ALL", "results_for_node")
+add("C09", "repo-manager-remembers-last-store", "codemodder/project_analysis/python_repo_manager.py",
+    [("    def parse_project(self) -> list[PackageStore]:", "    def prefer(self, store) -> None:\n        self._preferred = store\n\n    def parse_project(self) -> list[PackageStore]:"),],
+    "fire", "R-RUNWIDE-STATE", "PythonRepoManager.prefer",
+    extra_files={CTXF: [("                self._dependency_update_by_codemod[codemod_id] = package_store\n", "                self._dependency_update_by_codemod[codemod_id] = package_store\n                self.repo_manager.prefer(package_store)\n")]})
+add("C09", "apply-skips-files-failed-earlier", BC,
+    [("        process_file = functools.partial(", "        files_to_analyze = [p for p in files_to_analyze if p not in context.get_failed_files()]\n        process_file = functools.partial(")],
+    "fire", "R-RUNWIDE-STATE", "get_failed_files")
